@@ -264,6 +264,13 @@ def canon_line(l):
 def run(ctx):
     facts = c.regen(ctx)
     c.prove(ctx)
+    # readable companion of the c08_helpers_* theorems: which pinned helper text differs, and how
+    import os, re
+    pinned = dict(re.findall(r"/-- `([^`]+)`: (.*?) -/\ndef ", open(os.path.join(c.LEAN, "KM", "Model", "AdminPinned.lean")).read(), re.S))
+    for h in facts.get("c08_helpers") or []:
+        if pinned.get(h["Name"]) != h["Body"].replace("-/", "- /"):
+            ctx.broken.append("helper %s no longer reads as the model transcribes it (theorem c08_helpers_%s): now %r — pinned %r" % (
+                h["Name"], h["Name"].replace(".", "_"), h["Body"][:400], (pinned.get(h["Name"]) or "<none>")[:400]))
     reqs = matrix(ctx)
     traces = cache_traces(ctx.rng, 150 if ctx.quick() else 2500)
     seqs = sequences(ctx)
